@@ -14,9 +14,18 @@ open PV.Text
 
 /-- nothing of NewParser was refused by the extractor, and what it read is the grammar of the theorems -/
 theorem c16j_source_grammar :
-    FactsJson.untranslatedJson = [] ∧ FactsJson.translatedJson = ["NewParser"] ∧
+    FactsJson.untranslatedJson = [] ∧ FactsJson.translatedJson = ["NewParser", "Sentence", "Trim"] ∧
     FactsJson.valueRule = Gjson.valueRule ∧ FactsJson.env = Gjson.env :=
   ⟨rfl, rfl, rfl, rfl⟩
+
+/-- `combinator.Sentence` and `text.Trim`, read from the source the same way, are the model's `G.sentence` and the
+    `rtrim (ltrim · spacesNl) spacesNl` of the root; the root every C16 theorem parses is `Sentence(Trim(value))` built with
+    the SOURCE's two functions -/
+theorem c16j_sentence_trim :
+    (∀ g, FactsJson.Sentence g = G.sentence g) ∧
+    (∀ g, FactsJson.Trim g = .rtrim (.ltrim g .spacesNl) .spacesNl) ∧
+    Gjson.root = FactsJson.Sentence (FactsJson.Trim (.ref 0)) :=
+  ⟨fun _ => rfl, fun _ => rfl, rfl⟩
 
 /-- the decision theorem of C16, about the grammar the SOURCE constructs: on every input, beyond some fuel, Parse of
     `Sentence(Trim(value))` over the extracted rule answers, accepts exactly the documents of `JLang`, every returned tree
